@@ -1171,7 +1171,19 @@ func (c *checker) listenerPhase() {
 	res.Count("udp_datagrams", dgrams)
 	res.Count("udp_lines_dispatched", ulines)
 	res.Floor("udp_datagrams", dgrams, mon.N(700, 24000)*scalePct()/100)
-	l.Stop()
+	// results nobody collected any more (after a violation ended a burst early) must not keep the
+	// handler, and with it Listener.Stop, blocked
+	go func() {
+		for range h.udp {
+		}
+	}()
+	stopped := make(chan struct{})
+	go func() { l.Stop(); close(stopped) }()
+	select {
+	case <-stopped:
+	case <-time.After(30 * time.Second):
+		res.Inconclusive("listener did not stop within 30s")
+	}
 
 	// ---- tcp with a read timeout: the client sends a prefix in one write and stalls
 	ht := newPerConn()
